@@ -290,36 +290,17 @@ pub fn as_field_name(xml_name: &str) -> String {
 }
 
 /// renamed the Rust keyword and quote the field name
-pub fn rename_keywords(field_name: &str) -> &str {
+pub fn rename_keywords(field_name: &str) -> std::borrow::Cow<'_, str> {
     match field_name {
-        "type" => "r#type",
-        "as" => "r#as",
-        "where" => "r#where",
-        "break" => "r#break",
-        "override" => "r#override",
-        "continue" => "r#continue",
-        "crate" => "r#crate",
-        "else" => "r#else",
-        "enum" => "r#enum",
-        "extern" => "r#extern",
-        "false" => "r#false",
-        "true" => "r#true",
-        "fn" => "r#fn",
-        "for" => "r#for",
-        "if" => "r#if",
-        "impl" => "r#impl",
-        "in" => "r#in",
-        "let" => "r#let",
-        "loop" => "r#loop",
-        "match" => "r#match",
-        "mod" => "r#mod",
-        "move" => "r#move",
-        "mut" => "r#mut",
-        "pub" => "r#pub",
-        "ref" => "r#ref",
-        "return" => "r#return",
-        "self" => "r#self",
-        _ => field_name,
+        // these can not be used as raw identifiers
+        "self" | "crate" | "super" => format!("{field_name}_").into(),
+        // strict and reserved keywords (edition 2024)
+        "as" | "break" | "const" | "continue" | "else" | "enum" | "extern" | "false" | "fn" | "for" | "if" | "impl"
+        | "in" | "let" | "loop" | "match" | "mod" | "move" | "mut" | "pub" | "ref" | "return" | "static" | "struct"
+        | "trait" | "true" | "type" | "unsafe" | "use" | "where" | "while" | "async" | "await" | "dyn" | "abstract"
+        | "become" | "box" | "do" | "final" | "macro" | "override" | "priv" | "typeof" | "unsized" | "virtual"
+        | "yield" | "try" | "gen" => format!("r#{field_name}").into(),
+        _ => field_name.into(),
     }
 }
 
